@@ -56,6 +56,9 @@ CallsVariant(o) ==
     {C(op, X0) : op \in {"ctor_default", "visit_mv"} \cup SelfOps}
     \cup UNION {{C(op, [X0 EXCEPT !.t = t, !.v = v, !.m = m]) : op \in ValueOps, v \in Dom(t), m \in Ms(t)} : t \in SrcTypes}
     \cup UNION {{C(op, [X0 EXCEPT !.i = i, !.v = v]) : op \in PlaceOps, v \in Dom(Ty(Alts, i))} : i \in 0..(N - 1)}
+    \* MixTypes of a variant instantiation: the foreign variant types ("h3", "h4") it is visited together with
+    \cup UNION {UNION {{C(op, [X0 EXCEPT !.t = h, !.i = i, !.v = v, !.si = si]) : op \in HetOps, v \in Dom(Ty(HAlts(h), i)), si \in 0..1} :
+                        i \in 0..(Len(HAlts(h)) - 1)} : h \in MixTypes}
     \cup TwoObjCalls(o)
 
 CallsExpected(o) ==
